@@ -4,6 +4,7 @@ import (
 	"fmt"
 	"go/token"
 	"go/types"
+	"os"
 	"path/filepath"
 	"sort"
 	"strings"
@@ -229,6 +230,7 @@ func (ix *idxEngine) lenFacts(p *prover, v ssa.Value, t string, at ssa.Instructi
 	out = append(out, ix.resultFieldFacts(p, v, t)...)
 	out = append(out, ix.resultLenFacts(p, v, t, at)...)
 	out = append(out, ix.heapLoopFacts(p, v, t, at)...)
+	out = append(out, ix.localElemLenFacts(p, v, t, at)...)
 	return out
 }
 
@@ -269,6 +271,9 @@ func (ix *idxEngine) invariantHolds(inv structInv) bool {
 	for fn, stores := range byFn {
 		if !ix.invariantSimple(fn, inv, stores) && !ix.invariantAtExits(fn, inv, stores) {
 			ok = false
+			if os.Getenv("TABDBG") != "" {
+				fmt.Fprintf(os.Stderr, "invariant %s/%s not re-established by %s\n", inv.Slice.Name(), inv.Int.Name(), FuncName(fn))
+			}
 		}
 	}
 	ix.invOK[inv.Slice] = ok
@@ -869,7 +874,9 @@ func (ix *idxEngine) resultLenFacts(p *prover, v ssa.Value, t string, at ssa.Ins
 	}
 	tr, ok := ix.translate(callee, constraint{*L, ""}, callSite{p.fn, call})
 	if !ok {
-		return nil
+		// not an exact length in the callee's parameters: what every successful return KNOWS about the length
+		// (if len(hs) < n { return nil, err }; return hs, nil  gives  len(result) >= n)
+		return ix.resultLenBounds(p, call, callee, k, errIdx, t, at)
 	}
 	if needErrNil {
 		guarded := false
@@ -888,4 +895,100 @@ func (ix *idxEngine) resultLenFacts(p *prover, v ssa.Value, t string, at ssa.Ins
 	}
 	why := "every successful return of " + FuncName(callee) + " yields a slice of this length"
 	return []constraint{leq(linTerm(t), tr.e, why), leq(tr.e, linTerm(t), why)}
+}
+
+// errNilGuarded: `at` runs only where result #errIdx of call was tested nil.
+func errNilGuarded(call *ssa.Call, errIdx int, at ssa.Instruction) bool {
+	for _, cf := range expandConds(dominatingConds(at.Block())) {
+		e, nn, isT := nilTest(cf.Cond)
+		if !isT || (nn == 1) != cf.Val {
+			continue
+		}
+		if ex, isEx := e.(*ssa.Extract); isEx && ex.Tuple == ssa.Value(call) && ex.Index == errIdx {
+			return true
+		}
+	}
+	return false
+}
+
+// resultLenBounds: linear facts between the length of result #k and the callee's parameters that hold at EVERY
+// return which hands back a non-nil slice (the other returns must hand back nil with a definitely non-nil error,
+// and the use must then sit behind the caller's err == nil test).  The facts are the branch conditions that
+// dominate those returns, restricted to len(result) and parameter terms, translated to the call site.
+func (ix *idxEngine) resultLenBounds(p *prover, call *ssa.Call, callee *ssa.Function, k, errIdx int, t string, at ssa.Instruction) []constraint {
+	pc := ix.proverFor(callee)
+	nres := callee.Signature.Results().Len()
+	var common map[string]constraint
+	failing := false
+	for _, ret := range returnsOf(callee) {
+		rv := results(ret)
+		if len(rv) != nres {
+			return nil
+		}
+		if errIdx >= 0 && definitelyNonNilErr(rv[errIdx]) {
+			failing = true
+			continue
+		}
+		e := pc.resolve(rv[k])
+		if _, isPhi := e.(*ssa.Phi); isPhi || isNil(e) {
+			return nil
+		}
+		lt := pc.lenOf(e)
+		if len(lt.coef) != 1 || lt.k != 0 {
+			return nil
+		}
+		var lterm string
+		for tm, cf := range lt.coef {
+			if cf != 1 {
+				return nil
+			}
+			lterm = tm
+		}
+		here := map[string]constraint{}
+		for _, cf := range expandConds(dominatingConds(ret.Block())) {
+			for _, cs := range pc.condConstraints(cf.Cond, cf.Val) {
+				a, has := cs.e.coef[lterm]
+				if !has || a == 0 {
+					continue
+				}
+				rest := lin{coef: map[string]int64{}, k: cs.e.k}
+				for tm, c2 := range cs.e.coef {
+					if tm != lterm {
+						rest.coef[tm] = c2
+					}
+				}
+				tr, ok := ix.translate(callee, constraint{rest, ""}, callSite{p.fn, call})
+				if !ok {
+					continue
+				}
+				out := constraint{tr.e.add(linTerm(t).scale(a)), "every successful return of " + FuncName(callee) + " is behind this test on the length of its result"}
+				here[out.e.String()] = out
+			}
+		}
+		if common == nil {
+			common = here
+		} else {
+			for key := range common {
+				if _, ok := here[key]; !ok {
+					delete(common, key)
+				}
+			}
+		}
+	}
+	if len(common) == 0 {
+		return nil
+	}
+	if failing && !errNilGuarded(call, errIdx, at) {
+		return nil
+	}
+	keys := make([]string, 0, len(common))
+	for key := range common {
+		keys = append(keys, key)
+	}
+	sort.Strings(keys)
+	var out []constraint
+	for _, key := range keys {
+		out = append(out, common[key])
+	}
+	return out
 }
